@@ -405,6 +405,12 @@ fn run_scan(ctx: &Ctx) {
         f.extend_from_slice(b"2 0 obj 4 1 obj");
         emit_scan(&mut out, &f, [64usize, 1000, 1030, 2000, 65536, 500][i as usize % 6], None, "long_lines", "");
     }
+    // styled files (compact objects, comments after headers, CR / CRLF): model vs implementation
+    for i in 0..(9 * k) {
+        let d = gen_styled(&mut r, 1, ["lf", "cr", "crlf"][i % 3], [1u64, 2, 0][(i / 3) % 3], i % 2 == 0);
+        let f = render_styled(&d);
+        emit_scan(&mut out, &f, chunks[i % chunks.len()], None, "styled", "");
+    }
     // library-written files (model vs implementation only; kept small)
     for v in 0..(6 * k as u64) {
         if let Ok(f) = library_file(1, true, v * 4 + 4) {
@@ -423,16 +429,30 @@ fn run_scan(ctx: &Ctx) {
 enum Src {
     Lib { pages: u32, compress: bool, variant: u64 },
     Doc(Doc, String),
+    Styled(SDoc),
+}
+fn sdoc_json(d: &SDoc) -> Value {
+    json!({"root": d.root, "eol": d.eol, "objs": d.objs.iter().map(|o| json!([o.n, hex(&o.body), hex(&o.sep), hex(&o.pre_end)])).collect::<Vec<_>>()})
+}
+fn sdoc_from(v: &Value) -> SDoc {
+    SDoc {
+        root: v["root"].as_u64().unwrap() as u32,
+        eol: v["eol"].as_str().unwrap_or("lf").to_string(),
+        objs: v["objs"].as_array().unwrap().iter().map(|o| SObj { n: o[0].as_u64().unwrap() as u32, body: unhex(o[1].as_str().unwrap()), sep: unhex(o[2].as_str().unwrap()), pre_end: unhex(o[3].as_str().unwrap()) }).collect(),
+    }
 }
 fn src_json(s: &Src) -> Value {
     match s {
         Src::Lib { pages, compress, variant } => json!({"kind": "lib", "pages": pages, "compress": compress, "variant": variant}),
         Src::Doc(d, adv) => json!({"kind": "doc", "doc": doc_json(d), "adversarial": adv}),
+        Src::Styled(d) => json!({"kind": "styled", "doc": sdoc_json(d)}),
     }
 }
 fn src_from(v: &Value) -> Src {
     if v["kind"].as_str() == Some("lib") {
         Src::Lib { pages: v["pages"].as_u64().unwrap() as u32, compress: v["compress"].as_bool().unwrap(), variant: v["variant"].as_u64().unwrap() }
+    } else if v["kind"].as_str() == Some("styled") {
+        Src::Styled(sdoc_from(&v["doc"]))
     } else {
         Src::Doc(doc_from(&v["doc"]), v["adversarial"].as_str().unwrap_or("").to_string())
     }
@@ -441,6 +461,7 @@ fn src_bytes(s: &Src) -> Result<Vec<u8>, String> {
     match s {
         Src::Lib { pages, compress, variant } => library_file(*pages, *compress, *variant),
         Src::Doc(d, _) => Ok(render(d)),
+        Src::Styled(d) => Ok(render_styled(d)),
     }
 }
 
@@ -472,6 +493,9 @@ fn intact_of(src: &Src) -> Option<Intact> {
 fn emit_open(out: &mut Out, src: &Src, it: &mut Intact, dmg: &[Damage], preset: &str, class: &str) {
     let o = options(preset);
     let vi = it.views.entry(preset.to_string()).or_insert_with(|| view(&it.bytes, &o, &it.queries)).clone();
+    if vi.catalog.is_err() || vi.pages.is_err() || vi.objs.iter().any(|x| x.is_err()) {
+        out.count(&format!("intact_view_incomplete|{}|{}", class, preset));
+    }
     let df = apply_all(&it.bytes, dmg);
     if df == it.bytes {
         return; // not applicable
@@ -530,6 +554,19 @@ fn run_open(ctx: &Ctx) {
     for i in 0..(5 * k) {
         let (d, adv) = adversarial_doc(&mut r, (i % 5) as u64);
         srcs.push((Src::Doc(d, adv.to_string()), "adversarial"));
+    }
+    // styled documents: compact objects of every value kind, comments after the header, CR / CRLF
+    let eols = ["lf", "cr", "crlf"];
+    for (i, mode) in [1u64, 2, 0, 0, 3].iter().enumerate() {
+        let eol = eols[(i + ctx.seed as usize) % 3];
+        let pages = 1 + r.below(2) as u32;
+        let d = gen_styled(&mut r, pages, eol, *mode, i % 2 == 1);
+        srcs.push((Src::Styled(d), "styled"));
+    }
+    for i in 0..(3 * (k - 1)) {
+        let eol = eols[i % 3];
+        let d = gen_styled(&mut r, 2, eol, (i % 3) as u64, true);
+        srcs.push((Src::Styled(d), "styled"));
     }
     let cat = catalogue();
     for (src, class) in &srcs {
